@@ -29,17 +29,17 @@ Proof. split; [unfold valid; cbn; lia|vm_compute; discriminate]. Qed.
 
 (** //e/following::* on <r a="1"><b>t<e/></b><c><f/></c><d/></r> selects c, f, d *)
 Lemma ex_following : expr_total ex_doc_e0 = true /\ no_ns_axis ex_doc_e0 = true /\
-  fst (query ex_doc ex_doc_e0 ctx_default) = Ok (XNodes [10; 12; 14]).
+  fst (query ex_doc ex_doc_e0 ctx_default) = Ok (XNodes [9; 11; 13]).
 Proof. vm_compute. auto. Qed.
 
 (** (//star)[2] counts in document order: the second element of the document is b *)
-Lemma ex_filter_second : fst (query ex_doc ex_doc_e1 ctx_default) = Ok (XNodes [5]).
+Lemma ex_filter_second : fst (query ex_doc ex_doc_e1 ctx_default) = Ok (XNodes [4]).
 Proof. vm_compute. reflexivity. Qed.
 
 (** //c | //b and //b | //c both give b, c *)
 Lemma ex_union_both_orders :
-  fst (query ex_doc ex_doc_e2 ctx_default) = Ok (XNodes [5; 10]) /\
-  fst (query ex_doc ex_doc_e3 ctx_default) = Ok (XNodes [5; 10]).
+  fst (query ex_doc ex_doc_e2 ctx_default) = Ok (XNodes [4; 9]) /\
+  fst (query ex_doc ex_doc_e3 ctx_default) = Ok (XNodes [4; 9]).
 Proof. vm_compute. auto. Qed.
 
 (** //b[nosuch()] fails and leaves the context as it was *)
@@ -80,10 +80,10 @@ Lemma ns_axis_union_not_commutative :
 Proof. vm_compute. auto. Qed.
 
 (** ** DTD-default attributes (D19): /r/@* on <!DOCTYPE r [<!ATTLIST r d CDATA "dv">]><r a="1"><b/></r>
-    lists the default attribute d (key 0, row 6) before the specified attribute a (row 4) *)
+    lists the default attribute d (key 0, row 5) before the specified attribute a (row 4) *)
 Lemma default_attribute_not_canonical :
-  fst (query dtd_doc dtd_doc_e0 ctx_default) = Ok (XNodes [6; 4]) /\
-  ~ StronglySorted (doc_lt dtd_doc) [6; 4] /\ no_ns_axis dtd_doc_e0 = true.
+  fst (query dtd_doc dtd_doc_e0 ctx_default) = Ok (XNodes [5; 4]) /\
+  ~ StronglySorted (doc_lt dtd_doc) [5; 4] /\ no_ns_axis dtd_doc_e0 = true.
 Proof.
   split; [vm_compute; reflexivity|]. split; [|vm_compute; reflexivity].
   intros H. inversion H as [|a l Hl Ha]; subst. inversion Ha as [|b l' Hb _]; subst. unfold doc_lt in Hb. lia.
